@@ -493,7 +493,8 @@ def rule_extract(ctx):
     f = {n: S.operand(o, i, j) for n, o in zip(s["r"]["fields"], s["r"]["ops"])}
     ctx.check(T.has_call(f["version"], "determine_tls_version"), "R7", "extract:version", "version = determine_tls_version(legacy, extensions)",
               "version is not computed by determine_tls_version", ctx.loc(b, i))
-    ctx.check(any(x[0] == "field" and x[2] == "ciphers" for x in T.walk(f["cipher_suites"])), "R7", "extract:ciphers", "cipher_suites from client_hello.ciphers",
+    csrc = Q.element_sources(P, b, S, s["r"]["ops"][s["r"]["fields"].index("cipher_suites")], i, j)
+    ctx.check(any(x[0] == "field" and x[2] == "ciphers" for t_ in csrc for x in T.walk(t_)), "R7", "extract:ciphers", "cipher_suites from client_hello.ciphers",
               "cipher list originates from %s" % T.pp(f["cipher_suites"])[:80], ctx.loc(b, i))
     # routing of the extension payloads: the assignment to each list happens in the arm of the like-named extension variant
     want = {"sni": "SNI", "alpn": "ALPN", "signature_algorithms": "SignatureAlgorithms", "elliptic_curves": "EllipticCurves",
